@@ -4,7 +4,10 @@
    [reachable s] quantifies over EVERY host list, network script (per-dial and per-verify
    outcomes), subscription flag and EVERY finite sequence of timed control events
    (ensure/cancel/zeroconf/reconnect_soon/drop/reset/close/shutdown); [advance] adds any
-   amount of internal timer processing between two control events. *)
+   amount of internal timer processing between two control events.
+   Every verify-script entry carries the time the accessory takes before its decisive
+   pair-verify answer (0 .. never): all theorems hold with a pair-verify request IN FLIGHT
+   (phase [PVerify], cut off by the 30 s request timeout) at any point of the history. *)
 From Coq Require Import List NArith Arith Bool Lia.
 From AHK Require Import Model.Reconnect Proofs.Reconnect Proofs.ReconnectTrace.
 Import ListNotations.
@@ -28,13 +31,36 @@ Proof. intros n H. split; [exact (sleep_ticks_bounds n H)|exact (sleep_ticks_mon
 Theorem next_attempt_scheduled : forall s f t, reachable s ->
     let s' := advance f t s in
     (forall w, ph s' = PSleep w -> (now s' <= w <= now s' + SIXTY_S)%N) /\
-    (forall r d fh, ph s' = PDial r d fh -> (now s' <= d <= now s' + TEN_S)%N).
+    (forall r d fh, ph s' = PDial r d fh -> (now s' <= d <= now s' + TEN_S)%N) /\
+    (forall c h fh r u, ph s' = PVerify c h fh r u -> (now s' <= u <= now s' + THIRTY_S)%N).
 Proof.
   intros s f t H. cbv zeta. pose proof (reachable_advance_inv _ f t H) as I.
-  split.
+  split; [|split].
   - intros w Hw. split; [apply (i_ptime _ I); unfold phase_timer; now rewrite Hw|exact (proj2 (i_sleep _ I w Hw))].
   - intros r d fh Hd. split; [apply (i_ptime _ I); unfold phase_timer; now rewrite Hd|exact (proj1 (i_dial _ I r d fh Hd))].
+  - intros c h fh r u Hv. exact (proj2 (proj2 (proj2 (proj2 (inv_verify_alive _ _ _ _ _ _ I Hv))))).
 Qed.
+
+(* a pair-verify request in flight: the connector task is alive (exactly one), the pairing is neither
+   closed nor connected, and the wait ends no later than 30 s after the request *)
+Theorem verify_in_flight_alive : forall s f t c h fh r u, reachable s ->
+    let s' := advance f t s in
+    ph s' = PVerify c h fh r u ->
+    running s' = true /\ ntasks s' = 1 /\ closing s' = false /\ connected s' = false /\
+    (now s' <= u <= now s' + THIRTY_S)%N.
+Proof. intros s f t c h fh r u H. cbv zeta. exact (inv_verify_alive _ c h fh r u (reachable_advance_inv _ f t H)). Qed.
+
+(* a silent accessory cannot stall the connector: when the request is never answered in time
+   (r = None: the 30 s timeout fires) or the answer is a failure of class "other", the connection is
+   closed and the back-off sleep is scheduled, waking between 0.75 s and 60 s later, exclusions forgotten *)
+Theorem silent_verify_backs_off : forall s f t c h fh r u, reachable s ->
+    let s' := advance f t s in
+    ph s' = PVerify c h fh r u ->
+    match r with None => True | Some (k, _) => vclass_of k = KOther end ->
+    let s'' := fire (TPhase u) s' in
+    opn s'' = [] /\ cur s'' = None /\ ntasks s'' = 1 /\ excl s'' = [] /\
+    exists w, ph s'' = PSleep w /\ (u + 3072 <= w <= u + SIXTY_S)%N.
+Proof. intros s f t c h fh r u H. cbv zeta. exact (verify_failed_closed _ c h fh r u (reachable_advance_inv _ f t H)). Qed.
 
 (* no busy loop: the chain of immediate (no back-off) retries inside one step always ends
    within 2 + |hosts| + |advertised addresses| attempts - the cascade never runs out of fuel *)
@@ -71,6 +97,24 @@ Qed.
 Theorem waiter_timeout_keeps_connector : forall s w t,
     ph (fire (TWaiter w t) s) = ph s /\ ntasks (fire (TWaiter w t) s) = ntasks s.
 Proof. intros s w t. split; reflexivity. Qed.
+
+(* ... also while a pair-verify request is in flight for longer than the waiter is prepared to wait:
+   the accessory answers after 29.9 s; the caller gets its disconnection error after exactly 10 s,
+   the connector stays in PVerify and completes the session when the answer arrives *)
+Example waiter_bounded_verify_in_flight :
+  let mid := run [0] false [DConnect 0] [(VOk, 0%N, 122470%N)] [(1%N, Ensure 1)] 50001%N in
+  let fin := run [0] false [DConnect 0] [(VOk, 0%N, 122470%N)] [(1%N, Ensure 1)] 130001%N in
+  In (40961%N, EvWaiter 1 ODisconnected) (trace mid) /\ ph mid = PVerify 1 0 0 (Some (VOk, 0%N)) 122471%N /\
+  ntasks mid = 1 /\ opn mid = [1] /\ connected mid = false /\
+  connected fin = true /\ ph fin = PDoneOk /\ opn fin = [1] /\ count_dials (trace fin) = 1 /\ tie fin = false.
+Proof. vm_compute. repeat split; auto. Qed.
+
+(* a request that is never answered: timeout after exactly 30 s, connection closed, retry after the back-off *)
+Example silent_accessory_retried :
+  let s := run [0] false [DConnect 0; DConnect 0] [(VOk, 0%N, 1000000%N); (VOk, 0%N, 0%N)] [(1%N, Ensure 1)] 130001%N in
+  In (122881%N, EvClosed 1) (trace s) /\ In (125953%N, EvOpened 2 0) (trace s) /\
+  connected s = true /\ opn s = [2] /\ count_dials (trace s) = 2 /\ tie s = false.
+Proof. vm_compute. repeat split; auto 10. Qed.
 
 (* no advertised address is excluded forever: every back-off sleep forgets the exclusions, so the
    attempt after it offers every advertised address again *)
@@ -115,13 +159,15 @@ Qed.
    machine retries both with growing delays and stays within every bound above *)
 Example c10_nonvacuous :
   let s := run [0; 1] false [DConnect 0; DRefused; DConnect 0; DRefused; DConnect 0]
-               [(VWrongId, 0%N); (VWrongId, 0%N); (VOk, 0%N)] [(1%N, Ensure 1)] 12000%N in
+               [(VWrongId, 0%N, 0%N); (VWrongId, 0%N, 300%N); (VOk, 0%N, 50%N)] [(1%N, Ensure 1)] 12000%N in
   count_dials (trace s) = 5 /\ connected s = true /\ ntasks s = 0 /\ fuel_out s = false /\ tie s = false.
 Proof. vm_compute. repeat split; reflexivity. Qed.
 
 Print Assumptions one_connector.
 Print Assumptions backoff_bounds.
 Print Assumptions next_attempt_scheduled.
+Print Assumptions verify_in_flight_alive.
+Print Assumptions silent_verify_backs_off.
 Print Assumptions immediate_retry_bounded.
 Print Assumptions retries_continue.
 Print Assumptions no_connector_while_closed.
